@@ -27,7 +27,7 @@ Leaf(kind, x) ==
 With(n, p) == [f \in DOMAIN n \cup {"p"} |-> IF f = "p" THEN p ELSE n[f]]
 
 Members1 == {<<[kind |-> k, tag |-> t, opt |-> o[1], present |-> o[2], extra |-> e]>> :
-               k \in Kinds1, t \in Tags1, o \in {<<FALSE, TRUE>>, <<TRUE, TRUE>>, <<TRUE, FALSE>>}, e \in {"", "set"}}
+               k \in Kinds1, t \in Tags1, o \in {<<FALSE, TRUE>>, <<TRUE, TRUE>>, <<TRUE, FALSE>>}, e \in {"", "set", "explicit"}}
 Members2 == {<<[kind |-> a, tag |-> tp[1], opt |-> oa, present |-> TRUE, extra |-> ""],
                [kind |-> b, tag |-> tp[2], opt |-> ob[1], present |-> ob[2], extra |-> ""]>> :
                a \in Kinds2, b \in Kinds2, tp \in TagPairs, oa \in {FALSE}, ob \in {<<FALSE, TRUE>>, <<TRUE, TRUE>>, <<TRUE, FALSE>>}}
